@@ -1471,7 +1471,22 @@ class Translator:
         raise Unsupported('DeclRefExpr to %s' % rk)
 
     def const_global(self, r):
-        return None
+        """a const-qualified static data member / namespace-scope variable of integral type whose initialiser is a literal: its value"""
+        d = self.decls.get(r['id'])
+        if d is None or d.get('kind') != 'VarDecl':
+            return None
+        qt = d.get('type', {}).get('qualType', '')
+        if 'const' not in qt.replace('*', ' ').split() and 'constexpr' not in str(d.get('constexpr', '')):
+            return None
+        init = [c for c in d.get('inner', []) if c.get('kind', '').endswith('Expr') or c.get('kind', '').endswith('Literal')]
+        if not init:
+            return None
+        e = init[-1]
+        while e.get('kind') in ('ImplicitCastExpr', 'ConstantExpr', 'ParenExpr') and e.get('inner'):
+            e = e['inner'][0]
+        if e.get('kind') not in ('IntegerLiteral', 'CXXBoolLiteralExpr', 'CharacterLiteral'):
+            return None
+        return '((%s)%s)' % (self.ctype(qt.replace('const ', '').replace(' const', ''), d['type'].get('desugaredQualType')).c().strip(), self.expr(e))
 
     def field_decl(self, n, base_cls):
         fid = n.get('referencedMemberDecl')
@@ -1710,6 +1725,12 @@ class Translator:
     def e_InitListExpr(self, n):
         t = self.ntype(n)
         kids = n.get('inner', [])
+        vi = self.u.get('value_init', {}).get(t.c().strip())
+        def empty_init(c):
+            return c.get('kind') in ('CXXDefaultInitExpr', 'ImplicitValueInitExpr') or (c.get('kind') == 'InitListExpr' and all(empty_init(x) for x in c.get('inner', [])))
+        if vi is not None and all(empty_init(c) for c in kids):
+            # `T{}` of a type the unit models: the model's value-initialised object
+            return vi
         if any(c.get('kind') == 'CXXDefaultInitExpr' for c in kids):
             # clang's JSON omits the expression: take the in-class initialiser of the field at that position
             rd = self.record_decl(t.cxx) or self.record_decl(norm(n.get('type', {}).get('desugaredQualType', '') or ''))
